@@ -211,6 +211,17 @@ func (k Keeper) UpdateNSTValidatorListForStaker(ctx sdk.Context, assetID, staker
 					valueStakerList = k.cdc.MustMarshal(&stakerList)
 					store.Set(keyStakerList, valueStakerList)
 				}
+				// the stakers behind the removed one moved up by one position: keep the index stored
+				// in their infos in line with the list (genesis validation compares the two)
+				for i := idx; i < len(stakerList.StakerAddrs); i++ {
+					keyMoved := types.NativeTokenStakerKey(assetID, stakerList.StakerAddrs[i])
+					if valueMoved := store.Get(keyMoved); valueMoved != nil {
+						moved := &types.StakerInfo{}
+						k.cdc.MustUnmarshal(valueMoved, moved)
+						moved.StakerIndex = int64(i)
+						store.Set(keyMoved, k.cdc.MustMarshal(moved))
+					}
+				}
 			}
 			exists = true
 			stakerInfo.StakerIndex = int64(idx)
